@@ -99,6 +99,36 @@ func (h *Index) VerifStructure(mustBeLive bool) (problems []string, stats map[st
 	return problems, stats
 }
 
+// VerifLiveStructure is the part of VerifStructure that holds at every quiescent moment, also when
+// deletes overlapped a vacuum: no neighbour id of a LIVE node names a removed node, and the entry point
+// exists while live nodes do.
+func (h *Index) VerifLiveStructure() (problems []string) {
+	h.metaMu.RLock()
+	defer h.metaMu.RUnlock()
+	nodes := h.getNodes()
+	live := 0
+	for i, n := range nodes {
+		if n == nil || n.Deleted.Load() {
+			continue
+		}
+		live++
+		for l, conns := range n.Connections {
+			for _, nb := range conns {
+				if int(nb) >= len(nodes) || nodes[nb] == nil {
+					problems = append(problems, fmt.Sprintf("live node %d (%s) level %d points at removed/non-existent node %d", i, n.Id, l, nb))
+				}
+			}
+		}
+	}
+	if live > 0 {
+		ep := h.entrypointID.Load()
+		if int(ep) >= len(nodes) || nodes[ep] == nil {
+			problems = append(problems, fmt.Sprintf("entry point %d does not exist although %d live nodes do", ep, live))
+		}
+	}
+	return problems
+}
+
 // VerifDump renders the graph for diagnostics.
 func (h *Index) VerifDump() string {
 	h.metaMu.RLock()
